@@ -572,16 +572,18 @@ structure Res where
   nonEmpty : Bool       -- covers at least one base
 
 /-- A property or a method without arguments of a VALID object has nothing to refuse except what the object lacks:
-    the class documentation names NullSequenceException / NullParentException for a missing sequence / parent,
-    InvalidStrandException for an unstranded object, NoncodingTranscriptError for a transcript without CDS,
-    EmptyLocationException / LocationException / LocationOverlapException / NoSuchAncestorException for an object that
-    is (partly) outside its sequence chunk or covers no base, and NotImplementedError / an export error for
-    operations that are declared unsupported.  Any other class - ValueError and InvalidPositionException in particular, which
-    speak about ARGUMENTS - is not an answer to a call that has none. -/
+    the class documentation names NullSequenceException / NullParentException for a missing sequence / parent (an
+    object outside its sequence chunk has no sequence either), InvalidStrandException for an unstranded object,
+    NoncodingTranscriptError for an object without CDS, EmptyLocationException / LocationException /
+    LocationOverlapException / NoSuchAncestorException for an object that is (partly) outside its sequence chunk or
+    covers no base, InvalidQueryError for a collection that covers no base, and NotImplementedError / an export error
+    for operations that are declared unsupported.  Any other class - ValueError and InvalidPositionException in
+    particular, which speak about ARGUMENTS - is not an answer to a call that has none. -/
 def zeroArgRefusalAllowed (r : Res) (c : String) : Bool :=
-  (c == "NullSequence" && !r.hasSeq) || (c == "NullParent" && !(r.hasParent && r.hasSeq)) ||
+  ((c == "NullSequence" || c == "NullParent") && !(r.hasParent && r.hasSeq && r.inside)) ||
   (c == "InvalidStrand" && !r.directional) || (c == "NoncodingTranscript" && !r.coding) ||
   ((c == "EmptyLocation" || c == "Location" || c == "LocationOverlap" || c == "NoSuchAncestor") && (!r.inside || !r.nonEmpty)) ||
+  (c == "InvalidQuery" && !r.nonEmpty) ||
   c == "NotImplemented" || c == "Export"
 
 /-! ### grid lines: `ok wf` or a documented class -/
